@@ -182,6 +182,31 @@ func addMovFallbackEncodings() {
 				},
 			},
 		},
+		// 8E /r  MOV Sreg, r/m16  and  8C /r  MOV r/m16, Sreg with a memory operand
+		InstructionForm{
+			Operands: &[]Operand{
+				{Type: "sreg", Input: Bool(false), Output: Bool(true)},
+				{Type: "m16", Input: Bool(true), Output: Bool(false)},
+			},
+			Encodings: []Encoding{
+				{
+					Opcode: Opcode{Byte: "8E"},
+					ModRM:  &Modrm{Mode: "#1", Reg: "#0", Rm: "#1"},
+				},
+			},
+		},
+		InstructionForm{
+			Operands: &[]Operand{
+				{Type: "m16", Input: Bool(false), Output: Bool(true)},
+				{Type: "sreg", Input: Bool(true), Output: Bool(false)},
+			},
+			Encodings: []Encoding{
+				{
+					Opcode: Opcode{Byte: "8C"},
+					ModRM:  &Modrm{Mode: "#0", Reg: "#1", Rm: "#0"},
+				},
+			},
+		},
 	)
 
 	// https://www.felixcloutier.com/x86/mov
